@@ -43,7 +43,9 @@ func grammarLiterals() []lit {
 	for _, s := range []string{"(1.5+2.5i)", "(-1.5-2.5i)", "(0.0+0.0i)", "(+1.0E+3-2.0E-3i)", "(0.5+1.0e+1i)"} {
 		ls = append(ls, lit{s, mustCpx(s)})
 	}
-	for _, s := range []string{`'a'`, `'Z'`, `'0'`, `' '`, `'"'`, `'é'`, `'日'`, `'😀'`, `'~'`, `'['`, `','`} {
+	for _, s := range []string{`'a'`, `'Z'`, `'0'`, `' '`, `'"'`, `'é'`, `'日'`, `'😀'`, `'~'`, `'['`, `','`,
+		// the escaped forms the formatter itself writes (strconv.QuoteRune)
+		`'\''`, `'\\'`, `'\n'`, `'\t'`, `'\x41'`, `'\u00e9'`, `'\U0001f600'`, `'\U000e0001'`, `'\U0010ffff'`, `'\a'`} {
 		ls = append(ls, lit{s, mustRune(s)})
 	}
 	for _, s := range []string{`""`, `"a"`, `"abc"`, `"with space"`, `"[1, 2](List)"`, `"é日😀"`, `"it's"`, `"a\"b"`, `"tab\tnew\nline"`, `"\\"`,
